@@ -155,6 +155,12 @@ def job_tm(job, nwork, gamma_in, maxlen, K, q0='s0', blank='_'):
             ver[w, k] = tm_accepts_word(T, w, k)
         for k in sorted({0, 1, K}):
             trace[w, k] = tm_simulate_word(T, w, k)
+    # call history: the same machine object asked again with decreasing budgets after the runs above (a verdict remembered
+    # from a longer run must not leak into a shorter budget)
+    again = {}
+    for w in words:
+        for k in range(K, -1, -1):
+            again[w, k] = tm_accepts_word(T, w, k)
     job.lifted()
     nt = c.native('tm_algorithms')
 
@@ -163,7 +169,7 @@ def job_tm(job, nwork, gamma_in, maxlen, K, q0='s0', blank='_'):
         return ({(w, k): nt.tm_accepts_word(Tn, w, k) for (w, k) in ver},
                 {(w, k): [(q, list(t), h) for q, t, h in nt.tm_simulate_word(Tn, w, k)] for (w, k) in trace})
     job.differential(30, lambda mv: ({wk: c.conc(v, mv) for wk, v in ver.items()},
-                                     {wk: [(q, list(t), h) for q, t, h in c.conc(v, mv)] for wk, v in trace.items()}), nat_view, 'tm')
+                                     {wk: [(q, list(t), h) for q, t, h in c.conc(v, mv)] for wk, v in trace.items()}), nat_view, 'tm', replay=('tm', {'T': dec, 'word': words[-1], 'K': K}))
     for w in words:
         ref = RefTM(states, gamma, blank, q0, 'qa', 'qr', entries, w, K)
         for k in range(K + 1):
@@ -172,6 +178,13 @@ def job_tm(job, nwork, gamma_in, maxlen, K, q0='s0', blank='_'):
             bad = d.any_([d.iff(got.get(True, FALSE), acc) ^ 1, d.iff(got.get(False, FALSE), rej) ^ 1,
                           d.iff(got.get(None, FALSE), d.or_(acc, rej) ^ 1) ^ 1])
             job.oblige('tm_accepts_word(T, %r, %d) is the three-valued verdict' % (w, k), bad,
+                       replay=('tm', {'T': dec, 'word': w, 'K': K}))
+        for k in range(K + 1):
+            acc, rej = ref.verdicts(k)
+            got = {v: g for g, v in E.alts(again[w, k])}
+            bad = d.any_([d.iff(got.get(True, FALSE), acc) ^ 1, d.iff(got.get(False, FALSE), rej) ^ 1,
+                          d.iff(got.get(None, FALSE), d.or_(acc, rej) ^ 1) ^ 1])
+            job.oblige('after runs with larger budgets: tm_accepts_word(T, %r, %d) is the three-valued verdict' % (w, k), bad,
                        replay=('tm', {'T': dec, 'word': w, 'K': K}))
         for k in sorted({0, 1, K}):
             steps = ref.steps_done(k)
@@ -237,6 +250,15 @@ def _replay_tm(rp):
             if prev is not None and got_v is not prev:
                 bad.append({'word': w, 'k': k, 'verdict changed from': prev, 'to': got_v})
             prev = got_v if got_v is not None else prev
+        for k in range(rp['K'] + 1, -1, -1):        # the same object again, budgets decreasing
+            exp_v, _ = nat.ref_tm_run(rp['T'], w, k)
+            try:
+                got_v = tm_accepts_word(T, w, k)
+            except Exception as e:
+                bad.append({'word': w, 'k': k, 'second pass raised': repr(e)})
+                continue
+            if got_v is not exp_v:
+                bad.append({'word': w, 'k': k, 'verdict after runs with larger budgets': got_v, 'expected': exp_v})
     return bool(bad), {'mismatches': bad[:3]}
 
 
